@@ -42,6 +42,18 @@ def gen_inputs(rnd, n):
 
 
 def run(tier):
+    try:
+        return run_(tier)
+    except vlib.Blocked as e:
+        V = vlib.Verdict("C17")
+        V.disagree("entry points block after earlier calls failed in the same process", {"harness_report": str(e),
+                   "history": "the warm-up calls of harness/cmd/acvh/warmup.go, then a valid compile + validate"})
+        vlib.write_evidence("C17", tier, {"states": 1, "transitions": 1, "traces_validated_against_impl": 0,
+                                          "samples": [str(e)], "evaluations": 1, "distinct_nontrivial": 0}, 0.0, violations=1)
+        return V.finish()
+
+
+def run_(tier):
     t0 = time.time()
     V = vlib.Verdict("C17")
     rnd = vlib.rng(17)
